@@ -388,6 +388,44 @@ def run_smt(case):
                 except Exception as exc:  # pylint: disable=broad-except
                     acc.violation("C16.smt2.exception", "exception", dict(feats, exc=type(exc).__name__, step="multi"),
                                   {"msg": str(exc)[:300]})
+            # multi-step with an objective: what is exported AFTER an optimisation (run to the end, or cut short by
+            # max_iter) still denotes the problem - satisfiable, and the schedule just returned is one of its models
+            if ext["status"] == "sat" and cfg == {"optimizer": "incremental"} and spec.get("objectives"):
+                for mi in (None, 1, 2):
+                    try:
+                        with warnings.catch_warnings():
+                            warnings.simplefilter("ignore")
+                            b3 = bld.build(spec)
+                            kw3 = {"max_iter": mi} if mi else {}
+                            s3 = ps.SchedulingSolver(problem=b3.problem, max_time=30, **kw3)
+                            sol3 = s3.solve()
+                            p3 = os.path.join(tmpdir, f"after_opt_{mi}.smt2")
+                            s3.export_to_smt2(p3)
+                        if not sol3:
+                            continue
+                        with open(p3) as f3:
+                            t3 = f3.read()
+                        if "(check-sat)" not in t3:
+                            t3 += "\n(check-sat)\n"
+                        pins_txt = ""
+                        for tn, tsol in sol3.tasks.items():
+                            o3 = b3.tasks[tn]
+                            pins_txt += f"(assert (= {o3._start} {tsol.start if tsol.start >= 0 else '(- %d)' % -tsol.start}))\n"
+                            pins_txt += f"(assert (= {o3._end} {tsol.end if tsol.end >= 0 else '(- %d)' % -tsol.end}))\n"
+                            if tsol.optional:
+                                pins_txt += f"(assert (= {o3._scheduled} {'true' if tsol.scheduled else 'false'}))\n"
+                        for label, text3 in (("plain", t3), ("returned", t3.replace("(check-sat)", pins_txt + "(check-sat)"))):
+                            ext3 = rd.external_z3(text3)
+                            acc.executions += 1
+                            ok3 = ext3["status"] == "sat"
+                            acc.count(acc.clauses, f"C16.smt2.export_after_optimisation.{label}:{'T' if ok3 else ext3['status']}")
+                            if ext3["status"] == "unsat":
+                                acc.violation("C16.smt2.export_after_optimisation", "stale",
+                                              dict(feats, which=label, max_iter=mi), {"raw": ext3["raw"][:200]})
+                                break
+                    except Exception as exc:  # pylint: disable=broad-except
+                        acc.violation("C16.smt2.exception", "exception", dict(feats, exc=type(exc).__name__, step="after_opt"),
+                                      {"msg": str(exc)[:300]})
             if acc.sample is None:
                 acc.sample = {"spec": spec, "config": cfg, "external_status": ext["status"], "library": ref["outcome"],
                               "external_values": ext["values"], "smt2_bytes": len(text)}
